@@ -212,12 +212,12 @@ impl Sys {
         let mut listed = JMap::new();
         for a in &self.accts {
             let aa = self.names.get(a);
-            let b: i128 = token_call!(self, cl => cl.balance(&aa));
+            let b: i128 = token_call!(self, cl => cl.try_balance(&aa).ok().and_then(|r| r.ok()).unwrap_or(i128::MIN + 7));
             bal.insert(a.clone(), self.units(b));
             let mut row = JMap::new();
             for s in &self.accts {
                 let ss = self.names.get(s);
-                let v: i128 = token_call!(self, cl => cl.allowance(&aa, &ss));
+                let v: i128 = token_call!(self, cl => cl.try_allowance(&aa, &ss).ok().and_then(|r| r.ok()).unwrap_or(i128::MIN + 7));
                 row.insert(s.clone(), self.units(v));
             }
             al.insert(a.clone(), Value::Object(row));
@@ -229,7 +229,7 @@ impl Sys {
             };
             listed.insert(a.clone(), json!(l));
         }
-        let supply: i128 = token_call!(self, cl => cl.total_supply());
+        let supply: i128 = token_call!(self, cl => cl.try_total_supply().ok().and_then(|r| r.ok()).unwrap_or(i128::MIN + 7));
         let paused = match self.fl {
             Fl::Pausable => pausable::ExampleContractClient::new(e, &self.c).paused(),
             _ => false,
